@@ -32,6 +32,8 @@ var c06Focus = []string{
 	`$match(a, /[a-z]+/).match`, `$replace(a, /-/, "+")`, `$contains(a, /z/)`, `a.$split(/-/)`,
 	`$sum(arr) + n`, `$count(objs.v)`, `$distinct(arr)`, `$append(arr, n)`, `$zip(arr, arr)`, `$keys(b)`, `b.$lookup("c")`, `$string($)`,
 	`$formatNumber(n, "#,##0.00")`, `$fromMillis(n * 1000000)`, `[1..5].($ * n)`, `{"k": a, "v": n}`, `a & "-" & n`, `n > 3 ? a : b.c`,
+	// the random-number functions, projected onto deterministic results
+	`$sum($shuffle(arr)) + n`, `$random() < 2 ? a : n`, `$count($shuffle(objs))`, `$sort($shuffle(arr))`, `$shuffle(arr)^($)`, `$floor($random()) + n`,
 	`$merge([b, {"n": n}])`, `$each(b, function($v, $k){$k & "=" & $v})`, `$type(a) & $type(n)`, `**.c`, `b.*`,
 }
 
